@@ -118,11 +118,11 @@ TEMPL = {
 }
 KEYS = sorted(TEMPL)
 NK = len(KEYS)
-TAGS = ["xx:i:1", "xx:Z:a", "yy:f:1.5", "LN:i:4", "KC:i:2", "VN:Z:1.0", "TS:i:5", "x:i:1", "1x:i:1", "xx:Q:1", "RC:Z:a", "LN:Z:4", "xx:i:"]
+TAGS = ["xx:i:1", "xx:Z:a", "yy:f:1.5", "LN:i:4", "KC:i:2", "VN:Z:1.0", "TS:i:5", "x:i:1", "1x:i:1", "xx:Q:1", "RC:Z:a", "LN:Z:4", "xx:i:", "LN:i:0", "LN:i:+4"]
 
 def h_record_rules(ki: int, npos: int, t1: int, t2: int, vl: int) -> bool:
   """
-  pre: 0 <= ki < NK and 0 <= npos <= 11 and 0 <= t1 < 14 and 0 <= t2 < 14 and 1 <= vl <= 3
+  pre: 0 <= ki < NK and 0 <= npos <= 11 and 0 <= t1 < 16 and 0 <= t2 < 16 and 1 <= vl <= 3
   pre: (ki + t1) % NPART == PART
   post: _ == True
   """
@@ -133,7 +133,7 @@ def h_record_rules(ki: int, npos: int, t1: int, t2: int, vl: int) -> bool:
   k = vp.concretize(npos, 0, 11)
   if k > n + 2: return True
   pos = fields[1:1 + k] + ["zz"] * max(0, k - n)
-  tags = [TAGS[i] for i in (vp.concretize(t1, 0, 13), vp.concretize(t2, 0, 13)) if i < 13]
+  tags = [TAGS[i] for i in (vp.concretize(t1, 0, 15), vp.concretize(t2, 0, 15)) if i < 15]
   text = "\t".join([fields[0]] + pos + tags)
   level = vp.concretize(vl, 1, 3)
   try:
